@@ -53,7 +53,7 @@ M = [
     ('c_mv_alt_no_imm0', A, "            RegNotEquals('rs1', 0),\n            ImmIsStatic(),\n            ImmEquals(0),\n        ],\n        'c.ebreak'", "            RegNotEquals('rs1', 0),\n            ImmIsStatic(),\n            ImmBetween(0, 1),\n        ],\n        'c.ebreak'", ['C04'], 'addi rd, rs, 1 becomes c.mv'),
     ('c_andi_range_narrow', A, "            NameEquals('andi'),\n            RegBetween('rd', 8, 15),\n            RegBetween('rs1', 8, 15),\n            RegsMatch('rd', 'rs1'),\n            ImmIsStatic(),\n            ImmBetween(-2**5, 2**5 - 1),", "            NameEquals('andi'),\n            RegBetween('rd', 8, 15),\n            RegBetween('rs1', 8, 15),\n            RegsMatch('rd', 'rs1'),\n            ImmIsStatic(),\n            ImmBetween(-2**5, 2**5 - 2),", ['C20'], 'andi x8, x8, 31 no longer compressed'),
     ('c_sub_missing_regclass', A, "            NameEquals('sub'),\n            RegBetween('rd', 8, 15),", "            NameEquals('sub'),\n            RegBetween('rd', 8, 14),", ['C20'], ''),
-    ('second_round_dropped', A, "    items = resolve_register_aliases(items, constants)\n    if compress:\n        items = transform_compressible(items, constants, labels)\n    items = resolve_aligns(items, labels)", "    items = resolve_register_aliases(items, constants)\n    items = resolve_aligns(items, labels)", [], 'pseudo expansions not compressed: C20 speaks of instructions with literal operands; informational'),
+    ('second_round_dropped', A, "    items = resolve_register_aliases(items, constants)\n    if compress:\n        items = transform_compressible(items, constants, labels)\n    items = resolve_aligns(items, labels)", "    items = resolve_register_aliases(items, constants)\n    items = resolve_aligns(items, labels)", ['C20'], 'instructions that come out of pseudo-instruction expansions are never compressed'),
     ('neg_operand_order', A, "            inst = RTypeInstruction(item.line, 'sub', rd=rd, rs1='x0', rs2=rs)", "            inst = RTypeInstruction(item.line, 'sub', rd=rd, rs1=rs, rs2='x0') if rd == rs else RTypeInstruction(item.line, 'sub', rd=rd, rs1='x0', rs2=rs)", ['C05'], 'wrong only when rd == rs'),
     ('bgt_unswapped_numeric', A, "            inst = BTypeInstruction(item.line, names[item.name], rs1=rt, rs2=rs, imm=imm)", "            inst = BTypeInstruction(item.line, names[item.name], rs1=rt, rs2=rs, imm=imm) if not rs.isdigit() else BTypeInstruction(item.line, names[item.name], rs1=rs, rs2=rt, imm=imm)", ['C05', 'C13'], 'operands unswapped only when registers are spelled numerically'),
     ('position_uses_pessimistic', A, "    items = resolve_aligns(items, labels)\n    items = resolve_immediates(items, constants, labels)", "    items = resolve_immediates(items, constants, labels)\n    items = resolve_aligns(items, labels)", ['C08', 'C03'], 'immediates baked before aligns are resolved'),
